@@ -61,7 +61,7 @@ fn rename(body: &[Stmt], q: &str) -> Vec<Stmt> {
 pub fn singles(nlines: usize) -> Vec<Dev> {
     let mut d = vec![Dev::BlankBefore(""), Dev::BlankBefore(" \t"), Dev::BlankBefore("\r")];
     for p in 0..nlines {
-        for c in ["", "  \t", "# c", "#end loop", "\r", "# C:\\dir\\"] {
+        for c in ["", "  \t", "# c", "#end loop", "\r", "# C:\\dir\\", "# off:\r1 1 1"] {
             d.push(Dev::Insert(p, c));
         }
     }
@@ -72,6 +72,7 @@ pub fn singles(nlines: usize) -> Vec<Dev> {
     for p in 1..nlines {
         d.push(Dev::TrailingComment(p, " # c"));
         d.push(Dev::TrailingComment(p, " # \\"));
+        d.push(Dev::TrailingComment(p, " # was:\r1"));
     }
     // indentation, of the header line too
     for p in 0..nlines {
